@@ -566,4 +566,337 @@ theorem stepOk_disable (r : R) (cur : Obs) :
 theorem stepOk_enable (r : R) (cur : Obs) :
     stepOk r .enable cur = commonE r { r with adminDown := false } cur := rfl
 
+theorem up_false_iff {g : G} {r : R} (hr : Rel g r) : r.up = false ↔ g.sess = none := by
+  rw [hr.up]; cases g.sess <;> simp
+
+theorem up_true_of {g : G} {r : R} (hr : Rel g r) {s : Sess} (hs : g.sess = some s) : r.up = true := by
+  rw [hr.up, hs]; rfl
+
+/-- the relation after a step that ends (or finds no) session -/
+theorem rel_down {g' : G} {r' : R} (hi : Inv g') (hsn : g'.sess = none) (hup : r'.up = false)
+    (had : r'.adminDown = g'.adminDown) : Rel g' { r' with prev := observe g' } :=
+  ⟨hi, (by rw [hsn]; exact hup), fun s hs => (by rw [hsn] at hs; cases hs), had, rfl, aw_vacuous hi hsn _,
+   fun h => (by rw [hsn] at h; cases h)⟩
+
+/-- One in-domain step of the model is accepted by the reference checker and keeps the relation. -/
+theorem step_sim {g : G} {r : R} (hr : Rel g r) (ev : Ev) (hwf : wf r ev = true) :
+    ∃ r', stepOk r ev (observe (step g ev)) = .ok r' ∧ Rel (step g ev) r' := by
+  have hevwf := evWF_of_wf hr hwf
+  obtain ⟨hinv', hnl'⟩ := step_inv hr.inv ev hevwf
+  cases ev with
+  | est fams gr llgr lr =>
+      cases hs : g.sess with
+      | some s =>
+          have hst : step g (.est fams gr llgr lr) = g := by simp [step, hs]
+          rw [hst, stepOk_est, if_pos (up_true_of hr hs)]
+          exact ⟨r, commonE_stutter hr, hr⟩
+      | none =>
+          have hup : r.up = false := (up_false_iff hr).mpr hs
+          have hst : step g (.est fams gr llgr lr) =
+              onEstablished { g with sess := some { fams := fams, gr := gr, llgr := llgr } } ((gr.map (·.fams)).getD []) lr := by
+            simp [step, hs]
+          rw [hst] at hinv' hnl' ⊢
+          have hf := onEst_fields { g with sess := some { fams := fams, gr := gr, llgr := llgr } } ((gr.map (·.fams)).getD []) lr
+          generalize onEstablished { g with sess := some { fams := fams, gr := gr, llgr := llgr } }
+            ((gr.map (·.fams)).getD []) lr = g' at hinv' hnl' hf ⊢
+          simp only at hf
+          have haw : ∀ P fl, g'.gs = .peerReconnected P fl → ∀ x ∈ g'.rib, marked x = true →
+              x.fam ∈ (rEst r fams gr llgr).awaiting := by
+            intro P fl hgs x hx hm
+            have hc := hinv'.cover
+            unfold Cover at hc
+            rw [hgs] at hc
+            obtain ⟨_, _, s', n, hs', hn, hfn⟩ := hc x hx hm
+            rw [hf.1] at hs'
+            cases hs'
+            simp only at hn
+            simp [rEst, hn, hfn]
+          rw [stepOk_est, if_neg (by simp [hup])]
+          refine ⟨_, commonE_ok hr.prev hinv' hnl' (by simp [rEst, hf.1]) haw, ?_⟩
+          exact ⟨hinv', (by simp [rEst, hf.1]), fun s' hs' => (by rw [hf.1] at hs'; cases hs'; exact ⟨rfl, rfl, rfl⟩),
+            (by simp [rEst, hf.2, hr.ad]), rfl, haw, fun _ a ha => (by simp [rEst] at ha)⟩
+  | ann f n nl lc =>
+      rw [stepOk_ann]
+      by_cases hcond : (r.up && r.fams.contains f) = true
+      · rw [if_pos hcond]
+        simp only [Bool.and_eq_true] at hcond
+        obtain ⟨s, hs⟩ : ∃ s, g.sess = some s := by
+          cases h : g.sess with
+          | none => have := (up_false_iff hr).mpr h; rw [this] at hcond; simp at hcond
+          | some s => exact ⟨s, rfl⟩
+        obtain ⟨hfams, _, _⟩ := hr.sess s hs
+        have hcf : s.fams.contains f = true := by rw [← hfams]; exact hcond.2
+        have hst : step g (.ann f n nl lc) =
+            { g with rib := g.rib.insert { fam := f, pfx := n, noLlgr := nl, lsc := lc } } := by
+          simp only [step]; rw [hs]; simp only [hcf, ↓reduceIte]
+        rw [hst] at hinv' hnl' ⊢
+        generalize hg' : ({ g with rib := g.rib.insert { fam := f, pfx := n, noLlgr := nl, lsc := lc } } : G) = g' at hinv' hnl' ⊢
+        have hrib : g'.rib = g.rib.insert { fam := f, pfx := n, noLlgr := nl, lsc := lc } := by rw [← hg']
+        have hsess : g'.sess = g.sess := by rw [← hg']
+        have hgs : g'.gs = g.gs := by rw [← hg']
+        have had : g'.adminDown = g.adminDown := by rw [← hg']
+        have hann : ∀ a ∈ (rAnn r f n).announced, ∃ x ∈ g'.rib, x.fam = a.1 ∧ x.pfx = a.2 ∧ marked x = false := by
+          intro a ha
+          rw [hrib]
+          rcases List.mem_cons.mp ha with rfl | ha
+          · exact ⟨_, mem_insert.mpr (Or.inl rfl), rfl, rfl, rfl⟩
+          · rw [List.mem_filter] at ha
+            obtain ⟨x, hx, h1, h2, h3⟩ := hr.ann (by rw [hs]; rfl) a ha.1
+            refine ⟨x, mem_insert.mpr (Or.inr ⟨hx, fun ⟨e1, e2⟩ => ?_⟩), h1, h2, h3⟩
+            have ha1 : a.1 = f := h1.symm.trans e1
+            have ha2 : a.2 = n := h2.symm.trans e2
+            have : a = (f, n) := Prod.ext ha1 ha2
+            simp [this] at ha
+        have haw : ∀ P fl, g'.gs = .peerReconnected P fl → ∀ x ∈ g'.rib, marked x = true → x.fam ∈ (rAnn r f n).awaiting := by
+          intro P fl hgs' x hx hm
+          rw [hrib] at hx
+          rcases mem_insert.mp hx with rfl | ⟨hx, _⟩
+          · cases hm
+          · exact hr.aw P fl (hgs ▸ hgs') x hx hm
+        rw [announcedKept_of hann]
+        simp only [Bool.not_true, Bool.false_eq_true, ↓reduceIte]
+        refine ⟨_, commonE_ok hr.prev hinv' hnl' (by rw [hsess]; exact hr.up) haw, ?_⟩
+        exact ⟨hinv', (by rw [hsess]; exact hr.up), fun s' hs' => hr.sess s' (hsess ▸ hs'), (by rw [had]; exact hr.ad),
+          rfl, haw, fun _ => hann⟩
+      · rw [if_neg hcond]
+        have hst : step g (.ann f n nl lc) = g := by
+          cases hs : g.sess with
+          | none => simp [step, hs]
+          | some s =>
+              obtain ⟨hfams, _, _⟩ := hr.sess s hs
+              have : s.fams.contains f = false := by
+                rw [← hfams]; simpa [up_true_of hr hs] using hcond
+              simp only [step]; rw [hs]; simp only [this, Bool.false_eq_true, ↓reduceIte]
+        rw [hst]
+        exact ⟨r, commonE_stutter hr, hr⟩
+  | eor f =>
+      rw [stepOk_eor]
+      cases hs : g.sess with
+      | none =>
+          have hup : r.up = false := (up_false_iff hr).mpr hs
+          have hst : step g (.eor f) = g := by simp [step, hs]
+          rw [hst]
+          simp only [hup, Bool.false_and, Bool.false_eq_true, ↓reduceIte]
+          exact ⟨r, commonE_stutter hr, hr⟩
+      | some s =>
+          have hup : r.up = true := up_true_of hr hs
+          obtain ⟨_, hgr, _⟩ := hr.sess s hs
+          have hkept0 := hr.ann (by rw [hs]; rfl)
+          by_cases hgs : s.gr.isSome = true
+          · have hst : step g (.eor f) = onEor g f := by simp [step, hs, hgs]
+            rw [hst] at hinv' hnl' ⊢
+            obtain ⟨_, _, hsess, had⟩ := eor_timers hr.inv hs f
+            have hsub : ∀ x ∈ (onEor g f).rib, x ∈ g.rib ∧ (marked x = true → x.fam ≠ f) := by
+              intro x hx
+              obtain ⟨_, _, _, hcase⟩ := hr.inv.live s hs
+              rcases hcase with hi | ⟨P, fl, hp⟩
+              · rw [onEor_idle g hi] at hx
+                refine ⟨hx, fun hm => ?_⟩
+                have hc := hr.inv.cover
+                unfold Cover at hc; rw [hi] at hc
+                have := hc x hx; rw [hm] at this; cases this
+              · rw [onEor_prc g P fl hp] at hx
+                simp only at hx
+                rw [List.mem_filter] at hx
+                refine ⟨hx.1, fun hm he => ?_⟩
+                have hc := hr.inv.cover
+                unfold Cover at hc; rw [hp] at hc
+                obtain ⟨_, hk, _⟩ := hc x hx.1 hm
+                cases fl with
+                | true => simp only [↓reduceIte] at hk; simp [he, hk] at hx
+                | false => simp only [Bool.false_eq_true, ↓reduceIte] at hk; simp [he, hk] at hx
+            have hkeep : ∀ x ∈ g.rib, marked x = false → x ∈ (onEor g f).rib := by
+              intro x hx hm
+              obtain ⟨_, _, _, hcase⟩ := hr.inv.live s hs
+              have hst' : x.stale = false ∧ x.llgr = false := by simpa [marked] using hm
+              rcases hcase with hi | ⟨P, fl, hp⟩
+              · rw [onEor_idle g hi]; exact hx
+              · rw [onEor_prc g P fl hp]
+                simp only
+                rw [List.mem_filter]
+                refine ⟨hx, ?_⟩
+                cases fl <;> simp [hst'.1, hst'.2]
+            have hann : ∀ a ∈ r.announced, ∃ x ∈ (onEor g f).rib, x.fam = a.1 ∧ x.pfx = a.2 ∧ marked x = false := by
+              intro a ha
+              obtain ⟨x, hx, h1, h2, h3⟩ := hkept0 a ha
+              exact ⟨x, hkeep x hx h3, h1, h2, h3⟩
+            have haw : ∀ P fl, (onEor g f).gs = .peerReconnected P fl → ∀ x ∈ (onEor g f).rib, marked x = true →
+                x.fam ∈ (rEor r f).awaiting := by
+              intro P fl hgs' x hx hm
+              obtain ⟨hx', hne⟩ := hsub x hx
+              obtain ⟨_, _, _, hcase⟩ := hr.inv.live s hs
+              rcases hcase with hi | ⟨P0, fl0, hp⟩
+              · have hc := hr.inv.cover
+                unfold Cover at hc; rw [hi] at hc
+                have := hc x hx'; rw [hm] at this; cases this
+              · have := hr.aw P0 fl0 hp x hx' hm
+                simp [rEor, this, hne hm]
+            have hcond : (r.up && r.gr.isSome) = true := by rw [hup, hgr, hgs]; rfl
+            rw [announcedKept_of hann, if_pos hcond]
+            simp only [Bool.not_true, Bool.and_false, Bool.false_eq_true, ↓reduceIte]
+            refine ⟨_, commonE_ok hr.prev hinv' hnl' (by rw [hsess]; exact hr.up) haw, ?_⟩
+            exact ⟨hinv', (by rw [hsess]; exact hr.up), fun s' hs' => hr.sess s' (hsess ▸ hs'),
+              (by rw [had]; exact hr.ad), rfl, haw, fun _ => hann⟩
+          · have hst : step g (.eor f) = g := by simp [step, hs, hgs]
+            rw [hst]
+            have hcond : (r.up && r.gr.isSome) = false := by rw [hgr]; simp [hgs]
+            rw [announcedKept_of hkept0, hcond]
+            simp only [Bool.not_true, Bool.and_false, Bool.false_eq_true, ↓reduceIte]
+            exact ⟨r, commonE_stutter hr, hr⟩
+  | down reason =>
+      rw [stepOk_down]
+      cases hs : g.sess with
+      | none =>
+          have hup : r.up = false := (up_false_iff hr).mpr hs
+          have hst : step g (.down reason) = g := by simp [step, sessionDown, hs]
+          rw [hst, if_pos (by simp [hup])]
+          exact ⟨r, commonE_stutter hr, hr⟩
+      | some s =>
+          have hup : r.up = true := up_true_of hr hs
+          have hst : step g (.down reason) = sessionDown g reason := rfl
+          rw [hst] at hinv' hnl' ⊢
+          obtain ⟨F1, F2, F3⟩ := class_facts s reason g.adminDown
+          have hd := downOk_ok hr hs reason (classify reason r.adminDown)
+            (by rw [hr.ad]; exact F1) (by rw [hr.ad]; exact F2) (by rw [hr.ad]; exact F3)
+          rcases sessionDown_fields hr.inv reason with ⟨had, hsn⟩ | ⟨h0, _⟩
+          · rw [if_neg (by simp [hup]), hd]
+            simp only
+            refine ⟨_, commonE_ok hr.prev hinv' hnl' (by simp [sessionEnds, hsn]) (aw_vacuous hinv' hsn _), ?_⟩
+            exact rel_down hinv' hsn (by simp [sessionEnds]) (by simp [sessionEnds, hr.ad, had])
+          · rw [hs] at h0; cases h0
+  | attempt =>
+      have hst : step g .attempt = g := by simp [step, attemptEnds, applyDisc_none]
+      rw [hst, stepOk_attempt]
+      have h1 : ((r.prev.grTimer && !(observe g).grTimer) ||
+          r.prev.llgrTimers.any (fun f => !(observe g).llgrTimers.contains f)) = false := by
+        rw [hr.prev]; simp
+      rw [h1]
+      simp only [Bool.false_eq_true, ↓reduceIte]
+      by_cases hup : r.up = true
+      · have hk := announcedKept_of (hr.ann (by rw [← hr.up]; exact hup))
+        rw [hk]
+        simp only [Bool.not_true, Bool.and_false, Bool.false_eq_true, ↓reduceIte]
+        exact ⟨r, commonE_stutter hr, hr⟩
+      · have hup' : r.up = false := by simpa using hup
+        rw [hup']
+        simp only [Bool.false_and, Bool.false_eq_true, ↓reduceIte]
+        exact ⟨r, commonE_stutter hr, hr⟩
+  | grTimer =>
+      obtain ⟨had, hsess, hsame⟩ := fireGr_fields hr.inv
+      have hst : step g .grTimer = fireGr g := rfl
+      rw [hst] at hinv' hnl' ⊢
+      rw [stepOk_grTimer]
+      by_cases hup : r.up = true
+      · have hsome : g.sess.isSome = true := by rw [← hr.up]; exact hup
+        rw [hsame hsome, announcedKept_of (hr.ann hsome)]
+        simp only [Bool.not_true, Bool.and_false, Bool.false_eq_true, ↓reduceIte]
+        exact ⟨r, commonE_stutter hr, hr⟩
+      · have hup' : r.up = false := by simpa using hup
+        have hsn : g.sess = none := (up_false_iff hr).mp hup'
+        have hsn' : (fireGr g).sess = none := by rw [hsess, hsn]
+        rw [hup']
+        simp only [Bool.false_and, Bool.false_eq_true, ↓reduceIte]
+        refine ⟨_, commonE_ok hr.prev hinv' hnl' (by rw [hsn']; exact hup') (aw_vacuous hinv' hsn' _), ?_⟩
+        exact rel_down hinv' hsn' hup' (by rw [had]; exact hr.ad)
+  | llgrTimer f =>
+      obtain ⟨had, hsess, hsame⟩ := fireLlgr_fields hr.inv f
+      have hst : step g (.llgrTimer f) = fireLlgr g f := rfl
+      rw [hst] at hinv' hnl' ⊢
+      rw [stepOk_llgrTimer]
+      by_cases hup : r.up = true
+      · have hsome : g.sess.isSome = true := by rw [← hr.up]; exact hup
+        rw [hsame hsome, announcedKept_of (hr.ann hsome)]
+        simp only [Bool.not_true, Bool.and_false, Bool.false_eq_true, ↓reduceIte]
+        exact ⟨r, commonE_stutter hr, hr⟩
+      · have hup' : r.up = false := by simpa using hup
+        have hsn : g.sess = none := (up_false_iff hr).mp hup'
+        have hsn' : (fireLlgr g f).sess = none := by rw [hsess, hsn]
+        rw [hup']
+        simp only [Bool.false_and, Bool.false_eq_true, ↓reduceIte]
+        refine ⟨_, commonE_ok hr.prev hinv' hnl' (by rw [hsn']; exact hup') (aw_vacuous hinv' hsn' _), ?_⟩
+        exact rel_down hinv' hsn' hup' (by rw [had]; exact hr.ad)
+  | force =>
+      obtain ⟨had, hsn'⟩ := forceDown_fields hr.inv
+      have hst : step g .force = forceDown g := rfl
+      rw [hst] at hinv' hnl' ⊢
+      rw [stepOk_force]
+      cases hs : g.sess with
+      | none =>
+          have hup : r.up = false := (up_false_iff hr).mpr hs
+          rw [if_pos (by simp [hup])]
+          refine ⟨_, commonE_ok hr.prev hinv' hnl' (by rw [hsn']; exact hup) (aw_vacuous hinv' hsn' _), ?_⟩
+          exact rel_down hinv' hsn' hup (by rw [had]; exact hr.ad)
+      | some s =>
+          have hup : r.up = true := up_true_of hr hs
+          obtain ⟨_, hgt, hlt, _⟩ := hr.inv.live s hs
+          have hfd : forceDown g = sessionDown g .admin := forceDown_quiet g hgt hlt
+          obtain ⟨F1a, F1b⟩ := never_facts_admin s g.adminDown
+          have hd := downOk_ok hr hs .admin .never (fun _ => ⟨F1a, F1b⟩) (fun h => by cases h) (fun h => by cases h)
+          rw [← hfd] at hd
+          rw [if_neg (by simp [hup]), hd]
+          simp only
+          refine ⟨_, commonE_ok hr.prev hinv' hnl' (by simp [sessionEnds, hsn']) (aw_vacuous hinv' hsn' _), ?_⟩
+          exact rel_down hinv' hsn' (by simp [sessionEnds]) (by simp [sessionEnds, hr.ad, had])
+  | disable =>
+      rw [stepOk_disable]
+      by_cases ha : g.adminDown = true
+      · have hst : step g .disable = g := by simp [step, ha]
+        have hra : r.adminDown = true := by rw [hr.ad]; exact ha
+        rw [hst, if_pos hra]
+        exact ⟨r, commonE_stutter hr, hr⟩
+      · have haf : g.adminDown = false := by simpa using ha
+        have hra : r.adminDown = false := by rw [hr.ad]; exact haf
+        have hst : step g .disable = forceDown { g with adminDown := true } := by simp [step, haf]
+        rw [hst] at hinv' hnl' ⊢
+        have hi2 : Inv { g with adminDown := true } := inv_adminDown hr.inv true
+        obtain ⟨had, hsn'⟩ := forceDown_fields hi2
+        have hnl2 : NoLlgrOk g (forceDown { g with adminDown := true }) := hnl'
+        rw [if_neg (by simp [hra])]
+        rcases Option.eq_none_or_eq_some g.sess with hs | ⟨s, hs⟩
+        · have hup : r.up = false := (up_false_iff hr).mpr hs
+          rw [if_pos (by simp [hup])]
+          refine ⟨_, commonE_ok hr.prev hinv' hnl2 (by rw [hsn']; exact hup) (aw_vacuous hinv' hsn' _), ?_⟩
+          exact rel_down hinv' hsn' hup (by rw [had])
+        · have hup : r.up = true := up_true_of hr hs
+          obtain ⟨_, hgt, hlt, _⟩ := hr.inv.live s hs
+          have hfd : forceDown { g with adminDown := true } = sessionDown { g with adminDown := true } .admin :=
+            forceDown_quiet _ hgt hlt
+          have hr2 : Rel { g with adminDown := true } { r with adminDown := true } :=
+            ⟨hi2, hr.up, hr.sess, rfl, hr.prev, hr.aw, hr.ann⟩
+          obtain ⟨F1a, F1b⟩ := never_facts_admin s true
+          have hd := downOk_ok hr2 (s := s) hs .admin .never (fun _ => ⟨F1a, F1b⟩) (fun h => by cases h) (fun h => by cases h)
+          rw [← hfd] at hd
+          have hd' : downOk r .never (observe (forceDown { g with adminDown := true })) = .ok () := by
+            have : downOk r .never = downOk { r with adminDown := true } .never := by
+              funext cur; simp [downOk]
+            rw [this]; exact hd
+          rw [if_neg (by simp [hup]), hd']
+          simp only
+          refine ⟨_, commonE_ok hr.prev hinv' hnl2 (by simp [sessionEnds, hsn']) (aw_vacuous hinv' hsn' _), ?_⟩
+          exact rel_down hinv' hsn' (by simp [sessionEnds]) (by rw [had])
+  | enable =>
+      have hst : step g .enable = { g with adminDown := false } := rfl
+      rw [hst] at hinv' hnl' ⊢
+      rw [stepOk_enable]
+      refine ⟨_, commonE_ok (r' := { r with adminDown := false }) hr.prev hinv' hnl' hr.up hr.aw, ?_⟩
+      exact ⟨hinv', hr.up, hr.sess, rfl, rfl, hr.aw, hr.ann⟩
+
+/-! ## the master theorem -/
+
+theorem checkFrom_ok (evs : List Ev) (g : G) (r : R) (i : Nat) (hr : Rel g r) :
+    checkFrom r i evs (runFrom g evs) = .ok := by
+  induction evs generalizing g r i with
+  | nil => simp [runFrom, checkFrom]
+  | cons e es ih =>
+      simp only [runFrom, checkFrom]
+      by_cases hwf : wf r e = true
+      · obtain ⟨r', hok, hrel⟩ := step_sim hr e hwf
+        simp only [hwf, Bool.not_true, Bool.false_eq_true, ↓reduceIte, hok]
+        exact ih _ _ _ hrel
+      · simp [hwf]
+
+/-- The C10 reference checker accepts every run of the model. -/
+theorem check_run_ok (evs : List Ev) : Spec.check evs (run evs) = .ok :=
+  checkFrom_ok evs {} {} 0 rel_init
+
 end Rbgp.Gr.Helper
